@@ -69,6 +69,16 @@ m("sp-cursor-overadvance", "chartparse/instrument.py",
   "        if not candidate.tick_is_during_event(tick):\n            return None, candidate_index",
   "        if not candidate.tick_is_during_event(tick):\n            return None, min(candidate_index + 1, len(star_power_events) - 1)", ["C05"])
 m("sp-closed-interval", "chartparse/instrument.py", "return tick >= self.end_tick", "return tick > self.end_tick", ["C05"])
+# ---- C06
+m("enum-typo", "chartparse/instrument.py", 'GHL_RHYTHM = "GHLRhythm"', 'GHL_RHYTHM = "GHLRythm"', ["C06"])
+m("slice-drops-last-line", "chartparse/chart.py",
+  "lines, curr_first_line_index, curr_last_line_index + 1",
+  "lines, curr_first_line_index, curr_last_line_index + (1 if curr_last_line_index - (curr_first_line_index or 0) < 3 else 0)", ["C06"])
+m("bom-not-stripped", "chartparse/chart.py", 'encoding="utf-8-sig"', 'encoding="utf-8"', ["C06"])
+m("unknown-section-silent", "chartparse/chart.py",
+  "                logger.warning(cls._unhandled_data_section_log_msg_tmpl.format(header_tag))",
+  "                logger.debug(cls._unhandled_data_section_log_msg_tmpl.format(header_tag))", ["C06"])
+m("brace-stripped-compare", "chartparse/chart.py", 'elif line == "}":', 'elif line.strip() == "}":', ["C06"])
 # ---- C08
 m("bpm-sum-parts", "chartparse/sync.py",
   "bpm = int(data.raw_bpm) / 1000",
